@@ -260,6 +260,7 @@ func runC19(c *Ctx) {
 			"broken": "hypothesis Opt.WF of struct_join_map: a Bools option names a non-boolean flag"})
 	}
 	c19Scoped(c)
+	c19ScopeTree(c, or)
 	c19V1V2(c)
 	c19NonInterference(c)
 	c19ExplicitDefault(c)
